@@ -196,7 +196,7 @@ Variable mx : nat.
 Hypothesis keqb_spec : forall x y, keqb x y = true <-> x = y.
 
 Notation item := (K * (Z * R))%type.
-Notation lsh := (@lsh K R).
+Notation lsh := (@lsh A K R).
 Notation lthread := (@lthread A K R).
 
 (* r was produced by one of the first [calls] invocations, for arguments whose key is k *)
@@ -297,12 +297,12 @@ Proof. induction sch as [|e sch IH]; cbn; intros st H; auto. apply IH. apply lcs
 (* every value returned (not raised) under any schedule was produced by f for arguments with the
    caller's own key *)
 Theorem lru_returns_own_key t0 args sch :
-  let st := lcrun key keqb f mx valid sch (mkLS [] 0 t0 0, map (fun a => mkLT a LTime) args) in
+  let st := lcrun key keqb f mx valid sch (mkLS [] 0 t0 0 [], map (fun a => mkLT a LTime) args) in
   forall t r, In t (snd st) -> lreturned t = Some r ->
     exists a' n, key a' = key (lt_arg t) /\ (n < ls_calls (fst st))%N /\ r = f a' n.
 Proof.
   intros st t r Hin Hr.
-  assert (H0 : linv (mkLS [] 0 t0 0, map (fun a => mkLT a (@LTime K R)) args)).
+  assert (H0 : linv (mkLS [] 0 t0 0 [], map (fun a => mkLT a (@LTime K R)) args)).
   { split; cbn; [constructor|]. apply Forall_forall. intros u Hu. apply in_map_iff in Hu as (a & <- & _). exact I. }
   destruct (lcrun_inv sch _ H0) as [_ Hf]. fold st in Hf. rewrite Forall_forall in Hf.
   specialize (Hf t Hin). unfold lthread_ok in Hf. unfold lreturned in Hr.
@@ -310,3 +310,24 @@ Proof.
 Qed.
 
 End LruConcProofs.
+
+(* ---- finding F-C19-2: under interleaving the LRU wrapper can serve a value older than the
+   validity period (the hit path trusts the sweep it made earlier and does not look at the
+   timestamp of the entry it returns) ---- *)
+Definition lru2_init : @lsh carg ckey cres * list (@lthread carg ckey cres) :=
+  (mkLS [] 0 1000 0 [], [mkLT ([1%Z], []) LTime; mkLT ([1%Z], []) LTime]).
+Definition lru2_sched : list sched :=
+  repeat (SStep 0) 7 ++ [STick 6] ++ repeat (SStep 1) 5 ++ [SStep 0] ++ repeat (SStep 1) 2.
+
+Theorem lru_interleaving_stale :
+  let st := lcrun ckey_of ckeqb cf 2 (Some 5%Z) lru2_sched lru2_init in
+  let st' := lcstep ckey_of ckeqb cf 2 (Some 5%Z) st (SStep 1) in
+  exists t now t' r a' tc,
+    nth_error (snd st) 1 = Some t /\ lt_pc t = LGet now /\            (* about to run: return cache[key][1] *)
+    nth_error (snd st') 1 = Some t' /\ lreturned t' = Some r /\       (* ... returns r *)
+    nth_error (ls_log (fst st')) 0 = Some (a', tc) /\ r = cf a' 0 /\  (* r is the value of invocation 0, made at clock tc *)
+    fresh (Some 5%Z) now tc = false.                                   (* older than the validity period *)
+Proof.
+  cbv zeta. eexists _, _, _, _, _, _.
+  repeat split; vm_compute; reflexivity.
+Qed.
